@@ -217,12 +217,20 @@ Fixpoint ids_eqb (a b : list id) : bool :=
   | _, _ => false
   end.
 
+Fixpoint traits_eqb (a b : list trait) : bool :=
+  match a, b with
+  | [], [] => true
+  | x :: a', y :: b' => trait_eqb x y && traits_eqb a' b'
+  | _, _ => false
+  end.
+
 Definition udet_eqb (a b : details) : bool :=
   match a, b with
   | DOption x, DOption y => x =? y
   | DVec x, DVec y => x =? y
   | DSet x, DSet y => x =? y
   | DTuple x, DTuple y => ids_eqb x y
+  | DNative n i p, DNative n' i' p' => ustr_eqb n n' && traits_eqb i i' && ids_eqb p p'
   | DArray x n, DArray y m => (x =? y) && (n =? m)
   | DMap k v, DMap k' v' => (k =? k') && (v =? v')
   | DUnit, DUnit | DBoolean, DBoolean | DString, DString | DJsonValue, DJsonValue => true
